@@ -12,6 +12,9 @@ import FordModel.Lemmas.InitialValue
 import FordModel.Lemmas.ReaderLiteral
 import FordModel.Lemmas.MaskPass
 import FordModel.TypeSpec
+import FordModel.Include
+import FordModel.IncludeCfg
+import FordModel.Lemmas.Include
 namespace Ford.C02
 open Ford
 
@@ -323,6 +326,230 @@ theorem mask_loop_pinned :
       "    self.strings.append(quote.group())",
       "    line = line[0:search_from] + QUOTES_RE.sub(f'\"{len(self.strings) - 1}\"', line[search_from:], count=1)",
       "    search_from += QUOTES_RE.search(line[search_from:]).end(0)"] := rfl
+
+/-! ## include statements in the queue of `;`-separated statements
+
+  `incPrologue`, `incEpilogue`, `popsGuarded` (together `Include.readerCfg`), `popSites` and `includeMethod` are regenerated from ford/reader.py on every run
+  (translate/c02.py): which of the two pops of the queue in `FortranReader.__next__` is preceded by
+  `self.include()` is read off the source, and the theorems are stated over that. -/
+
+open Ford.Include in
+/-- **An include statement is expanded wherever it stands on its line.**  Whatever statements the
+    logical line just read was split into at its `;` (the queue `pending`), the reader - with
+    `self.include()` called where the source calls it (`Include.readerCfg`) - returns, in order,
+    every ordinary statement as it is and, for every include statement, the items of the file it
+    names: first, last or in the middle of the line makes no difference, and neither does the number
+    of statements or of includes.  `Expandable` asks that looking the file up does not fail and - only
+    as long as the tree is the unrepaired variant (`guarded = false`, finding
+    C02-include-without-statements; for the repaired tree the hypothesis asks nothing more) - that the
+    file gives at least one item. -/
+theorem include_expanded_wherever_it_stands_partial (resolve : Str → Res) (pending : List Str)
+    (h : ∀ p ∈ pending, Expandable Include.readerCfg.guarded Include.readerCfg.kwLoose resolve p) :
+    drain Include.readerCfg resolve .epilogue pending =
+      .ok (pending.flatMap (expand1 Include.readerCfg.kwLoose resolve)) :=
+  drain_eq_flatMap _ resolve rfl rfl pending .epilogue (by decide) h
+
+open Ford.Include in
+/-- **`;` or new line: the same items.**  Statements `a` followed by statements `b` on one logical
+    line (separated by `;`) give exactly what `a` on one line and `b` on the next give, include
+    statements in either of them expanded. -/
+theorem semicolon_or_newline_same_includes_partial (resolve : Str → Res) (a b : List Str)
+    (ha : ∀ p ∈ a, Expandable Include.readerCfg.guarded Include.readerCfg.kwLoose resolve p)
+    (hb : ∀ p ∈ b, Expandable Include.readerCfg.guarded Include.readerCfg.kwLoose resolve p) :
+    drain Include.readerCfg resolve .epilogue (a ++ b) =
+      (do let x ← drain Include.readerCfg resolve .epilogue a
+          let y ← drain Include.readerCfg resolve .epilogue b
+          pure (x ++ y)) :=
+  drain_append _ resolve rfl rfl a b ha hb
+
+open Ford.Include in
+/-- Statements that are not include statements pass through the queue untouched (no statement is
+    taken for an include because of what it *contains*: only the first eight characters count). -/
+theorem queue_without_includes_unchanged (resolve : Str → Res) (pending : List Str)
+    (h : ∀ p ∈ pending, isIncludeStmt Include.readerCfg.kwLoose p = false) :
+    drain Include.readerCfg resolve .epilogue pending = .ok pending :=
+  drain_no_include _ resolve pending .epilogue (by decide) h
+
+open Ford.Include in
+/-- **The file name of an include statement is literal text.**  `include`, in any capitalisation,
+    one blank, any further blanks, then the name between two equal quote characters: the statement is
+    an include statement and the name looked up is exactly the text between the delimiters - blanks,
+    `;`, `!`, `&`, the other quote character included.  Holds for the recognition as the source has
+    it (`Include.readerCfg.kwLoose`, regenerated) - in fact for both variants. -/
+theorem include_file_name_verbatim (kw ws name : Str) (q : Char) (hk : lower kw = chars! "include")
+    (hws : isBlank ws = true) (hq : isQuote q = true) :
+    isIncludeStmt Include.readerCfg.kwLoose (kw ++ ' ' :: ws ++ q :: name ++ [q]) = true ∧
+    includeName Include.readerCfg.kwLoose (kw ++ ' ' :: ws ++ q :: name ++ [q]) = name :=
+  include_stmt_name _ kw ws name q hk hws hq
+
+open Ford.Include in
+/-- ... and once the recognition is the repaired one (`INCLUDE_RE`, fixes/C02-include-keyword-separator.diff)
+    the blank after the keyword is optional, as it is in Fortran: `include'f.inc'`, a tab, any white
+    space.  As the code stands the hypothesis is false and `include_keyword_separator_witness` holds. -/
+theorem include_blank_optional_partial (h : Include.readerCfg.kwLoose = true) (kw ws name : Str) (q : Char)
+    (hk : lower kw = chars! "include") (hws : isBlank ws = true) (hq : isQuote q = true) :
+    isIncludeStmt Include.readerCfg.kwLoose (kw ++ ws ++ q :: name ++ [q]) = true ∧
+    includeName Include.readerCfg.kwLoose (kw ++ ws ++ q :: name ++ [q]) = name := by
+  rw [h]
+  exact include_stmt_name_loose kw ws name q hk hws hq
+
+open Ford.Include in
+/-- Known finding C02-include-keyword-separator, as the code stands (`kwLoose = false`): an include
+    line whose keyword is followed by a tab or directly by the quote is not taken for one (and a
+    statement that merely starts with the word, `include = 3`, is); the repaired recognition gets
+    all three right. -/
+theorem include_keyword_separator_witness :
+    isIncludeStmt false (chars! "include\t'f.inc'") = false ∧ isIncludeStmt false (chars! "INCLUDE'f.inc'") = false ∧
+    isIncludeStmt false (chars! "include = 3") = true ∧
+    isIncludeStmt true (chars! "include\t'f.inc'") = true ∧ isIncludeStmt true (chars! "INCLUDE'f.inc'") = true ∧
+    isIncludeStmt true (chars! "include = 3") = false ∧
+    includeName true (chars! "include\t'f.inc'") = chars! "f.inc" := by
+  decide
+
+open Ford.Include in
+/-- why both pops have to look: when only the pop at the bottom of `__next__` calls `include()`, an
+    include statement that is not the first of its line is returned unexpanded -/
+theorem include_after_semicolon_witness :
+    (drain { incPrologue := false, incEpilogue := true, guarded := false, kwLoose := false }
+        (fun n => if n == chars! "f.inc" then .items [chars! "y = 2"] else .failed .notFound) .epilogue
+        [chars! "x = 1", chars! "include 'f.inc'"]).toOption = some [chars! "x = 1", chars! "include 'f.inc'"] ∧
+    (drain { incPrologue := true, incEpilogue := true, guarded := false, kwLoose := false }
+        (fun n => if n == chars! "f.inc" then .items [chars! "y = 2"] else .failed .notFound) .epilogue
+        [chars! "x = 1", chars! "include 'f.inc'"]).toOption = some [chars! "x = 1", chars! "y = 2"] := by
+  decide
+
+open Ford.Include in
+/-- Known finding C02-include-without-statements, as the code stands (`guarded = false`): after an
+    include of a file without statements the blind `pop(0)` raises when the statement was the last of
+    its line, and otherwise returns the next statement unexamined - a second include stays
+    unexpanded.  The re-testing variant (`guarded = true`) returns what the property asks for. -/
+theorem include_without_statements_witness :
+    (match drain { incPrologue := true, incEpilogue := true, guarded := false, kwLoose := false }
+        (fun n => if n == chars! "e.inc" then .items [] else .items [chars! "y = 2"]) .epilogue
+        [chars! "include 'e.inc'"] with
+      | .error .popEmpty => true
+      | _ => false) = true ∧
+    (drain { incPrologue := true, incEpilogue := true, guarded := false, kwLoose := false }
+        (fun n => if n == chars! "e.inc" then .items [] else .items [chars! "y = 2"]) .epilogue
+        [chars! "include 'e.inc'", chars! "include 'f.inc'"]).toOption = some [chars! "include 'f.inc'"] ∧
+    (drain { incPrologue := true, incEpilogue := true, guarded := true, kwLoose := false }
+        (fun n => if n == chars! "e.inc" then .items [] else .items [chars! "y = 2"]) .epilogue
+        [chars! "include 'e.inc'", chars! "include 'f.inc'"]).toOption = some [chars! "y = 2"] := by
+  decide
+
+/-- The two pops of the statement queue in `FortranReader.__next__` are the ones the model's `drain`
+    is a reading of - in the shape the code has, or in the shape of the repaired variant
+    (fixes/C02-include-without-statements.diff) - and **both are preceded by `self.include()`**: an
+    edit of either place changes this obligation. -/
+theorem queue_pops_pinned :
+    (Generated.C02.popSites = [
+      ("prologue", ["if len(self.pending) != 0:", "    self.include()", "    self.prevdoc = False",
+                    "    return self.pending.pop(0)"]),
+      ("epilogue", ["if len(self.pending) > 0:", "    self.include()", "    self.prevdoc = False",
+                    "    return self.pending.pop(0)", "else: ..."])] ∧
+     Include.readerCfg.incPrologue = true ∧ Include.readerCfg.incEpilogue = true ∧
+     Include.readerCfg.guarded = false) ∨
+    (Generated.C02.popSites = [
+      ("prologue", ["if len(self.pending) != 0:", "    self.include()", "if len(self.pending) != 0:",
+                    "    self.prevdoc = False", "    return self.pending.pop(0)"]),
+      ("epilogue", ["if len(self.pending) > 0:", "    self.include()", "if len(self.pending) > 0:",
+                    "    self.prevdoc = False", "    return self.pending.pop(0)",
+                    "elif len(self.docbuffer) > 0: ...", "return next(self)"])] ∧
+     Include.readerCfg.incPrologue = true ∧ Include.readerCfg.incEpilogue = true ∧
+     Include.readerCfg.guarded = true) := by
+  first | exact Or.inl ⟨rfl, rfl, rfl, rfl⟩ | exact Or.inr ⟨rfl, rfl, rfl, rfl⟩
+
+/-- The method `FortranReader.include` whose reading `Include.isIncludeStmt` / `includeName` / `look`
+    are (an include statement is a queued statement whose lower-cased text starts with `include `;
+    the name is `[8:].strip()[1:-1]`; a missing `.h` file keeps the statement, any other missing file
+    raises; the items of the nested reader are spliced in front of the queue) is the one in the
+    source: as it stands, with fixes/C02-include-without-statements.diff, or with
+    fixes/C02-include-keyword-separator.diff (which contains the former; the recognition then is
+    `INCLUDE_RE = include\s*(?=['"])`, IGNORECASE - checked by the translator - and the name starts at `[7:]`);
+    and the variant switches of the model are the ones that belong to that text. -/
+theorem include_method_pinned :
+    (Generated.C02.includeMethod = [
+      "if len(self.pending) == 0 or not self.pending[0].lower().startswith('include '):",
+      "    return",
+      "curpending = self.pending.pop(0)",
+      "name = curpending[8:].strip()[1:-1]",
+      "for b in [os.path.dirname(self.name)] + self.inc_dirs:",
+      "    pname = os.path.abspath(os.path.expanduser(os.path.join(b, name)))",
+      "    if os.path.isfile(pname):",
+      "        name = pname",
+      "        break",
+      "else:",
+      "    msg = f'Can not find include file \"{name}\"'",
+      "    if name.endswith('.h'):",
+      "        warn(msg)",
+      "        self.pending = [curpending] + self.pending",
+      "        return",
+      "    raise FileNotFoundError(msg)",
+      "self.pending = list(FortranReader(name, self.docmark, self.predocmark, self.docmark_alt, self.predocmark_alt, self.fixed, self.length_limit, inc_dirs=self.inc_dirs, encoding=self.encoding)) + self.pending"] ∧
+     Include.readerCfg.guarded = false ∧ Include.readerCfg.kwLoose = false) ∨
+    (Generated.C02.includeMethod = [
+      "while len(self.pending) > 0 and self.pending[0].lower().startswith('include '):",
+      "    curpending = self.pending.pop(0)",
+      "    name = curpending[8:].strip()[1:-1]",
+      "    for b in [os.path.dirname(self.name)] + self.inc_dirs:",
+      "        pname = os.path.abspath(os.path.expanduser(os.path.join(b, name)))",
+      "        if os.path.isfile(pname):",
+      "            name = pname",
+      "            break",
+      "    else:",
+      "        msg = f'Can not find include file \"{name}\"'",
+      "        if name.endswith('.h'):",
+      "            warn(msg)",
+      "            self.pending = [curpending] + self.pending",
+      "            return",
+      "        raise FileNotFoundError(msg)",
+      "    included = list(FortranReader(name, self.docmark, self.predocmark, self.docmark_alt, self.predocmark_alt, self.fixed, self.length_limit, inc_dirs=self.inc_dirs, encoding=self.encoding))",
+      "    self.pending = included + self.pending",
+      "    if len(included) > 0:",
+      "        return"] ∧
+     Include.readerCfg.guarded = true ∧ Include.readerCfg.kwLoose = false) ∨
+    (Generated.C02.includeMethod = [
+      "while len(self.pending) > 0 and self.INCLUDE_RE.match(self.pending[0]):",
+      "    curpending = self.pending.pop(0)",
+      "    name = curpending[7:].strip()[1:-1]",
+      "    for b in [os.path.dirname(self.name)] + self.inc_dirs:",
+      "        pname = os.path.abspath(os.path.expanduser(os.path.join(b, name)))",
+      "        if os.path.isfile(pname):",
+      "            name = pname",
+      "            break",
+      "    else:",
+      "        msg = f'Can not find include file \"{name}\"'",
+      "        if name.endswith('.h'):",
+      "            warn(msg)",
+      "            self.pending = [curpending] + self.pending",
+      "            return",
+      "        raise FileNotFoundError(msg)",
+      "    included = list(FortranReader(name, self.docmark, self.predocmark, self.docmark_alt, self.predocmark_alt, self.fixed, self.length_limit, inc_dirs=self.inc_dirs, encoding=self.encoding))",
+      "    self.pending = included + self.pending",
+      "    if len(included) > 0:",
+      "        return"] ∧
+     Include.readerCfg.guarded = true ∧ Include.readerCfg.kwLoose = true) := by
+  first
+  | exact Or.inl ⟨rfl, rfl, rfl⟩
+  | exact Or.inr (Or.inl ⟨rfl, rfl, rfl⟩)
+  | exact Or.inr (Or.inr ⟨rfl, rfl, rfl⟩)
+
+open Ford.Include in
+/-- non-vacuity, through the whole reader: `x = 1; include 'f.inc'; z = 3 !! dz` with `f.inc` =
+    `y = 'a;b ! c' !! dy` / `include "g.inc"` and `g.inc` = `w = 4` reads as the statements of the three
+    files in place, the doc lines where they belong; one statement per line gives the same items -/
+example :
+    (readFS Include.readerCfg Marks.default
+      [(chars! "f.inc", [chars! "y = 'a;b ! c' !! dy", chars! "  include \"g.inc\" ! nested"]),
+       (chars! "g.inc", [chars! "w = 4"])] 3
+      [chars! "x = 1; include 'f.inc'; z = 3 !! dz"]).toOption =
+      some [chars! "x = 1", chars! "y = 'a;b ! c'", chars! "!! dy", chars! "w = 4", chars! "z = 3", chars! "!! dz"] ∧
+    (readFS Include.readerCfg Marks.default
+      [(chars! "f.inc", [chars! "y = 'a;b ! c' !! dy", chars! "  include \"g.inc\" ! nested"]),
+       (chars! "g.inc", [chars! "w = 4"])] 3
+      [chars! "x = 1", chars! "INCLUDE   'f.inc'", chars! "z = 3 !! dz"]).toOption =
+      some [chars! "x = 1", chars! "y = 'a;b ! c'", chars! "!! dy", chars! "w = 4", chars! "z = 3", chars! "!! dz"] := by
+  decide
 
 /-- Historical witness of the defect repaired by the `fix:` commit 389e6bb: the old
     previous-character test called the closed literal `''` unterminated; the
